@@ -8,6 +8,8 @@ package main
 
 import (
 	"fmt"
+	"os"
+	"path/filepath"
 	"regexp"
 	"strings"
 	"sync"
@@ -46,8 +48,26 @@ func gsSubmatch(name, s string) ([]string, bool) {
 	return toks, true
 }
 
+// gsDriver: the executable built from the translated Go source, next to the model driver; nil when it does not exist
+// (the translated file did not compile: bin/check reports that as a broken obligation and removes the stale binary).
+func gsDriver(env *Env) *Driver {
+	env.gsOnce.Do(func() {
+		p := filepath.Join(filepath.Dir(env.DriverPath), "klogv-gsdriver")
+		if _, err := os.Stat(p); err == nil {
+			if d, err := StartDriver(p, ""); err == nil {
+				env.gs = d
+			}
+		}
+	})
+	return env.gs
+}
+
 func gsCompare(env *Env, o *Outcome, what string, impl string, in map[string]any, parts ...string) {
-	model := env.Drv.Ask(parts...)
+	d := gsDriver(env)
+	if d == nil {
+		return
+	}
+	model := d.Ask(parts...)
 	if impl != model {
 		addF(o, Finding{Kind: "K", What: "K.gosrc." + what + ": the Go source as translated into Lean (Gen/GoSrc.lean) differs from the running code", Impl: impl, Model: model, Input: in})
 	}
